@@ -10,6 +10,12 @@ Extract/C07x.vos Extract/C07x.vok Extract/C07x.required_vos: Extract/C07x.v Mode
 Extract/C14x.vo Extract/C14x.glob Extract/C14x.v.beautified Extract/C14x.required_vo: Extract/C14x.v Model/LspText.vo Spec/C14.vo
 Extract/C14x.vio: Extract/C14x.v Model/LspText.vio Spec/C14.vio
 Extract/C14x.vos Extract/C14x.vok Extract/C14x.required_vos: Extract/C14x.v Model/LspText.vos Spec/C14.vos
+Extract/C18x.vo Extract/C18x.glob Extract/C18x.v.beautified Extract/C18x.required_vo: Extract/C18x.v gen/C18Tables.vo Model/Control.vo Spec/C18.vo Spec/C18Judge.vo
+Extract/C18x.vio: Extract/C18x.v gen/C18Tables.vio Model/Control.vio Spec/C18.vio Spec/C18Judge.vio
+Extract/C18x.vos Extract/C18x.vok Extract/C18x.required_vos: Extract/C18x.v gen/C18Tables.vos Model/Control.vos Spec/C18.vos Spec/C18Judge.vos
+Model/Control.vo Model/Control.glob Model/Control.v.beautified Model/Control.required_vo: Model/Control.v gen/C18Tables.vo
+Model/Control.vio: Model/Control.v gen/C18Tables.vio
+Model/Control.vos Model/Control.vok Model/Control.required_vos: Model/Control.v gen/C18Tables.vos
 Model/Cycle.vo Model/Cycle.glob Model/Cycle.v.beautified Model/Cycle.required_vo: Model/Cycle.v Model/Io.vo
 Model/Cycle.vio: Model/Cycle.v Model/Io.vio
 Model/Cycle.vos Model/Cycle.vok Model/Cycle.required_vos: Model/Cycle.v Model/Io.vos
@@ -34,6 +40,9 @@ Proofs/C06Proofs.vos Proofs/C06Proofs.vok Proofs/C06Proofs.required_vos: Proofs/
 Proofs/C14Proofs.vo Proofs/C14Proofs.glob Proofs/C14Proofs.v.beautified Proofs/C14Proofs.required_vo: Proofs/C14Proofs.v Model/LspText.vo Spec/C14.vo
 Proofs/C14Proofs.vio: Proofs/C14Proofs.v Model/LspText.vio Spec/C14.vio
 Proofs/C14Proofs.vos Proofs/C14Proofs.vok Proofs/C14Proofs.required_vos: Proofs/C14Proofs.v Model/LspText.vos Spec/C14.vos
+Proofs/C18Proofs.vo Proofs/C18Proofs.glob Proofs/C18Proofs.v.beautified Proofs/C18Proofs.required_vo: Proofs/C18Proofs.v gen/C18Tables.vo Model/Control.vo Spec/C18.vo
+Proofs/C18Proofs.vio: Proofs/C18Proofs.v gen/C18Tables.vio Model/Control.vio Spec/C18.vio
+Proofs/C18Proofs.vos Proofs/C18Proofs.vok Proofs/C18Proofs.required_vos: Proofs/C18Proofs.v gen/C18Tables.vos Model/Control.vos Spec/C18.vos
 Proofs/CycleProofs.vo Proofs/CycleProofs.glob Proofs/CycleProofs.v.beautified Proofs/CycleProofs.required_vo: Proofs/CycleProofs.v Model/Io.vo Model/Cycle.vo Proofs/IoProofs.vo
 Proofs/CycleProofs.vio: Proofs/CycleProofs.v Model/Io.vio Model/Cycle.vio Proofs/IoProofs.vio
 Proofs/CycleProofs.vos Proofs/CycleProofs.vok Proofs/CycleProofs.required_vos: Proofs/CycleProofs.v Model/Io.vos Model/Cycle.vos Proofs/IoProofs.vos
@@ -55,6 +64,9 @@ Properties/C08.vos Properties/C08.vok Properties/C08.required_vos: Properties/C0
 Properties/C14.vo Properties/C14.glob Properties/C14.v.beautified Properties/C14.required_vo: Properties/C14.v Model/LspText.vo Spec/C14.vo Proofs/C14Proofs.vo
 Properties/C14.vio: Properties/C14.v Model/LspText.vio Spec/C14.vio Proofs/C14Proofs.vio
 Properties/C14.vos Properties/C14.vok Properties/C14.required_vos: Properties/C14.v Model/LspText.vos Spec/C14.vos Proofs/C14Proofs.vos
+Properties/C18.vo Properties/C18.glob Properties/C18.v.beautified Properties/C18.required_vo: Properties/C18.v gen/C18Tables.vo Model/Control.vo Spec/C18.vo Proofs/C18Proofs.vo
+Properties/C18.vio: Properties/C18.v gen/C18Tables.vio Model/Control.vio Spec/C18.vio Proofs/C18Proofs.vio
+Properties/C18.vos Properties/C18.vok Properties/C18.required_vos: Properties/C18.v gen/C18Tables.vos Model/Control.vos Spec/C18.vos Proofs/C18Proofs.vos
 Spec/C04.vo Spec/C04.glob Spec/C04.v.beautified Spec/C04.required_vo: Spec/C04.v 
 Spec/C04.vio: Spec/C04.v 
 Spec/C04.vos Spec/C04.vok Spec/C04.required_vos: Spec/C04.v 
@@ -73,3 +85,12 @@ Spec/C07Judge.vos Spec/C07Judge.vok Spec/C07Judge.required_vos: Spec/C07Judge.v 
 Spec/C14.vo Spec/C14.glob Spec/C14.v.beautified Spec/C14.required_vo: Spec/C14.v Model/LspText.vo
 Spec/C14.vio: Spec/C14.v Model/LspText.vio
 Spec/C14.vos Spec/C14.vok Spec/C14.required_vos: Spec/C14.v Model/LspText.vos
+Spec/C18.vo Spec/C18.glob Spec/C18.v.beautified Spec/C18.required_vo: Spec/C18.v 
+Spec/C18.vio: Spec/C18.v 
+Spec/C18.vos Spec/C18.vok Spec/C18.required_vos: Spec/C18.v 
+Spec/C18Judge.vo Spec/C18Judge.glob Spec/C18Judge.v.beautified Spec/C18Judge.required_vo: Spec/C18Judge.v Spec/C18.vo
+Spec/C18Judge.vio: Spec/C18Judge.v Spec/C18.vio
+Spec/C18Judge.vos Spec/C18Judge.vok Spec/C18Judge.required_vos: Spec/C18Judge.v Spec/C18.vos
+gen/C18Tables.vo gen/C18Tables.glob gen/C18Tables.v.beautified gen/C18Tables.required_vo: gen/C18Tables.v 
+gen/C18Tables.vio: gen/C18Tables.v 
+gen/C18Tables.vos gen/C18Tables.vok gen/C18Tables.required_vos: gen/C18Tables.v 
